@@ -12,5 +12,6 @@ INVARIANT StatsSegmentationIndependent
 INVARIANT ScoreSegmentationIndependent
 INVARIANT DeletedStillCounted
 INVARIANT TermIffMatches
+INVARIANT MergeEstimateBounds
 INVARIANT ScoresUseSearcherStats
 CHECK_DEADLOCK FALSE
